@@ -127,6 +127,11 @@ class _CheckingJacobian(DictionaryJacobian):
     def _setup(self, system):
         self._subjacs_info = self._subjacs_info.copy()
 
+        # the metadata dicts are shared with the system, so forget what an earlier check recorded
+        for meta in self._subjacs_info.values():
+            meta.pop('uncovered_nz', None)
+            meta.pop('uncovered_threshold', None)
+
         self._setup_index_maps(system)
         self._subjacs = self._get_subjacs(system)
 
